@@ -287,9 +287,9 @@ def load_module_from_file_object(
             ts = fp.read(4)
             if magic_int in (3439,) or version >= (3, 7):
                 # PEP 552. https://www.python.org/dev/peps/pep-0552/
-                pep_bits = ts[-1]
-                if PYTHON_VERSION_TRIPLE <= (2, 7):
-                    pep_bits = ord(pep_bits)
+                # The flags are a little-endian 32-bit word; bit 0 marks
+                # a hash-based pyc.
+                pep_bits = unpack("<I", ts)[0]
                 if (pep_bits & 1) or magic_int == 3393:  # 3393 is 3.7.0beta3
                     # SipHash
                     sip_hash = unpack("<Q", fp.read(8))[0]
